@@ -14,7 +14,7 @@ from ._pipes import PipeScenario, JoinScenario, flat, needs_clock, parse
 
 MOD = __name__
 
-PASS_THROUGH = ("map", "filter", "flatten", "pluck", "accumulate", "unique", "slice", "sliding_window")
+PASS_THROUGH = ("map", "filter", "flatten", "flatten2", "pluck", "accumulate", "accumulate_nostart", "unique", "slice", "sliding_window")
 BUFFERING = ("buffer", "delay", "latest", "collect", "timed_window", "timed_window_unique", "map_async", "map_async_eager", "rate_limit")
 
 
@@ -121,11 +121,74 @@ class Chain(PipeScenario):
                 return Violation("emit-pending", site, "", dict(pending=pend, delivered=self.delivered()))
             names = [parse(s)[0] for s in self.params["nodes"]]
             if not any(nm in ("sliding_window", "latest", "collect", "partition", "timed_window_unique") for nm in names):
-                got = sorted(flat(self.delivered()))
+                got = sorted(x for x in flat(self.delivered()) if not isinstance(x, str))
+                if "flatten2" in names:
+                    got = sorted(set(got)) if got == sorted(list(set(got)) * 2) else got
                 if got != sorted(self.emitted()):
                     return Violation("queued-at-end", site, "", dict(emitted=self.emitted(), delivered=self.delivered()))
             if sorted(map(repr, self.finished())) != sorted(map(repr, self.delivered())):
                 return Violation("consumer-not-finished", site, "", dict(delivered=self.delivered(), finished=self.finished()))
+        return None
+
+
+class FanOut(Chain):
+    """one node, two asynchronous consumers: the emit awaitable must cover both"""
+
+    def attach_sink(self, node):
+        self.sink = node.sink(self.make_sink_fn(self.params.get("kind", "future"), "S"))
+        self.sink2 = node.sink(self.make_sink_fn(self.params.get("kind", "future"), "T"))
+
+    def on_emit_done(self, producer, idx, x):
+        for name in ("S", "T"):
+            got = [e[3] for e in self.log if e[0] == "in" and e[1] == name and x in flat(e[3])]
+            fin = [e[3] for e in self.log if e[0] == "out" and e[1] == name and x in flat(e[3])]
+            if not got or len(fin) < len(got):
+                self.violations.append(Violation("emit-before-consumer", self.site(), "fan-out:%s" % ("consumer-still-handling" if got else "not-yet-delivered"),
+                                                 dict(element=x, consumer=name, log=[(e[0], e[1], e[3]) for e in self.log if e[0] in ("in", "out", "emit")][-10:])))
+
+    def _check(self, final):
+        er = self.emit_raised()
+        if er:
+            return Violation("emit-raised", self.site(), er[0][4], er)
+        if final:
+            pend = [pr.name for pr in self.producers if pr.inflight()]
+            if pend:
+                return Violation("emit-pending", self.site(), "fan-out", dict(pending=pend))
+            for name in ("S", "T"):
+                got = sorted(set(x for x in flat(self.delivered(name)) if not isinstance(x, str)))
+                if got != sorted(self.emitted()):
+                    return Violation("queued-at-end", self.site(), "fan-out", dict(consumer=name, delivered=self.delivered(name)))
+        return None
+
+
+class Latest2(JoinScenario):
+    """zip_latest / combine_latest in front of a gated consumer: an arrival that makes the node emit
+    (several tuples at once for zip_latest) completes only when the consumer has finished all of them"""
+    close_intervals = 4.0
+    horizon = 0.0
+
+    def site(self):
+        return parse(self.params["join"])[0]
+
+    def on_emit_done(self, producer, idx, x):
+        handling = _own_outputs(self, x)
+        fin = [b for b in self.finished()]
+        if any(b not in fin for b in handling):
+            self.violations.append(Violation("emit-before-consumer", self.site(), "consumer-still-handling",
+                                             dict(element=x, delivered=self.delivered(), finished=self.finished())))
+
+    def check_step(self):
+        er = self.emit_raised()
+        if er:
+            return Violation("emit-raised", self.site(), er[0][4], er)
+        return None
+
+    def check_final(self):
+        pend = [pr.name for pr in self.producers if pr.inflight()]
+        if pend:
+            return Violation("emit-pending", self.site(), "", dict(pending=pend, delivered=self.delivered()))
+        if sorted(map(repr, self.finished())) != sorted(map(repr, self.delivered())):
+            return Violation("consumer-not-finished", self.site(), "", dict(delivered=self.delivered(), finished=self.finished()))
         return None
 
 
@@ -216,6 +279,12 @@ def factory(key):
     if key[0] == "zip3":
         _, maxsize, kind, mode, ca, cb, cc = key
         return lambda: Zip3(join="zip:%d" % maxsize, kind=kind, mode=mode, counts=(ca, cb, cc))
+    if key[0] == "fanout":
+        _, nodes, kind, mode, n = key
+        return lambda: FanOut(nodes=tuple(s for s in nodes.split(",") if s), kind=kind, mode=mode, n=n, nprod=1)
+    if key[0] == "latest2":
+        _, join, kind, mode, na, nb = key
+        return lambda: Latest2(join=join, left="", right="", kind=kind, mode=mode, n=na, nb=nb)
     if key[0] in ("chain", "chainref"):
         _, nodes, kind, mode, n, nprod = key
         return lambda: Chain(nodes=tuple(s for s in nodes.split(",") if s), kind=kind, mode=mode, n=n, nprod=nprod, refs=key[0] == "chainref")
@@ -223,8 +292,8 @@ def factory(key):
     return lambda: Zip(join="zip:%d" % maxsize, left="", right="", kind=kind, mode=mode, n=na, nb=nb)
 
 
-PLAIN = ["", "map", "filter", "flatten", "pluck", "accumulate", "unique", "slice", "sliding_window:1", "sliding_window:2",
-         "partition:2"]
+PLAIN = ["", "map", "filter", "flatten", "flatten2", "pluck", "accumulate", "accumulate_nostart", "unique", "slice",
+         "sliding_window:1", "sliding_window:2", "partition:2"]
 
 
 def plan(ctx):
@@ -247,6 +316,12 @@ def plan(ctx):
         jobs.append((("zip", n, "future", "await", n + 2, 1), 2 if T else 1))
         jobs.append((("zip", n, "native", "await", n + 1, n + 1), 1))
         jobs.append((("zip", n, "future", "burst", n + 2, 1), 1))
+    for nd in ("", "map", "flatten2"):
+        for kind in (("future", "native", "gen") if T else ("future", "native")):
+            jobs.append((("fanout", nd, kind, "await", 2, ), 1))
+    for j in ("zip_latest", "combine_latest"):
+        jobs.append((("latest2", j, "future", "await", 2, 2), 1))
+        jobs.append((("latest2", j, "native", "burst", 3, 1), 1 if T else 0))
     jobs.append((("zip3", 1, "future", "burst", 3, 2, 2), 1 if T else 0))
     jobs.append((("zip3", 1, "native", "await", 2, 2, 2), 1))
     if T:
